@@ -2,7 +2,7 @@
 from sa import pat as P
 from sa.cfg import cfg
 from sa.expr import ex, show, walk, cond_exprs, const_val
-from sa.util import table, fmt_conds, describe_table, local_by_name, require_callers, glob_any
+from sa.util import table, fmt_conds, describe_table, require_callers, glob_any
 from rules.walks import *
 
 EXPLANATION = (
@@ -74,17 +74,19 @@ def skeleton(prog, f):
     SD = P.call('ic_btc_canister::blocktree::DifficultyBasedDepth::new', P.call('ic_btc_canister::blocktree::ChainBlock::difficulty', P.field('root', P.param('self'))))
     base = [r for r in rows if P.exactly(r[2], [P.call('alloc::vec::Vec::is_empty', P.field('children', P.param('self')))])]
     d['base-case'] = len(base) == 1 and base[0][1][0] == 'agg' and SD(dict(base[0][1][4]).get('0')) and const_val(dict(base[0][1][4]).get('1')) == 1
-    bk = [x for l in local_by_name(f, 'best_key') for x in table(prog, f, l)]
-    init = [x for x in bk if x[1][0] == 'agg' and P.call('ic_btc_canister::blocktree::DifficultyBasedDepth::new', P.const(0))(dict(x[1][4]).get('0')) and const_val(dict(x[1][4]).get('1')) == 0]
-    d['initial-key-(0,0)'] = len(init) == 1
-    upd = [x for x in bk if x not in init]
-    BK = P.named('best_key')
+    from sa.util import find_locals, is_var
+    zero_key = lambda x, l: x[0] == 'agg' and len(x[4]) == 2 and P.call('ic_btc_canister::blocktree::DifficultyBasedDepth::new', P.const(0))(x[4][0][1]) and const_val(x[4][1][1]) == 0
+    bks = find_locals(prog, f, zero_key)
+    d['initial-key-(0,0)'] = len(bks) == 1
+    l_bk = bks[0] if bks else -1
+    BK = is_var(l_bk)
+    bk = table(prog, f, l_bk) if bks else []
+    upd = [x for x in bk if not zero_key(x[1], l_bk)]
     strict = False
     key_expr = None
     if len(upd) == 1:
         key_expr = upd[0][1]
-        strict = any(c[0] == 'bin' and c[1] == 'Lt' and BK(c[2]) and c[3] == key_expr for c in upd[0][2]) or \
-            any(c[0] == 'bin' and c[1] == 'Lt' and BK(c[2]) and P.named('key')(c[3]) for c in upd[0][2])
+        strict = any(c[0] == 'bin' and c[1] == 'Lt' and BK(c[2]) and (c[3] == key_expr or c[3][0] == 'var') for c in upd[0][2])
     d['strict-greater'] = strict
     # key = (child difficulty, child length)
     rec = P.call(f.short, P.anything)
@@ -93,18 +95,15 @@ def skeleton(prog, f):
             kd = dict(key_expr[4])
             d['key=(difficulty,length)'] = P.field('0', rec)(kd.get('0')) and P.field('1', rec)(kd.get('1'))
         else:
-            d['key=(difficulty,length)'] = rec(key_expr) or P.named('key')(key_expr)
+            d['key=(difficulty,length)'] = rec(key_expr)
     else:
         d['key=(difficulty,length)'] = False
     fin = [r for r in rows if r not in base]
     okf = False
     if len(fin) == 1 and fin[0][1][0] == 'agg':
         fd = dict(fin[0][1][4])
-        okf = P.either(P.named('total_difficulty'), P.call('<ic_btc_canister::blocktree::DifficultyBasedDepth as core::ops::arith::Add>::add', SD, P.field('0', BK)))(fd.get('0')) and \
-            P.either(P.named('total_length'), P.binop('Add', P.const(1), P.field('1', BK)))(fd.get('1'))
-        for nm, pat in (('total_difficulty', P.call('<ic_btc_canister::blocktree::DifficultyBasedDepth as core::ops::arith::Add>::add', SD, P.field('0', BK))), ('total_length', P.binop('Add', P.const(1), P.field('1', BK)))):
-            for l in local_by_name(f, nm):
-                okf = okf and all(pat(x) for x in e.def_exprs(l))
+        okf = P.call('<ic_btc_canister::blocktree::DifficultyBasedDepth as core::ops::arith::Add>::add', SD, P.field('0', BK))(fd.get('0')) and \
+            P.binop('Add', P.const(1), P.field('1', BK))(fd.get('1'))
     d['accumulation'] = okf
     it = [c for c in f.calls() if not c.cleanup and c.matches('core::slice::iter')]
     bad = [c for c in f.calls() if not c.cleanup and c.matches('*::rev', '*::skip', '*::take', '*::filter', '*::step_by', '*::sort*')]
@@ -124,12 +123,16 @@ def r2_r3(ctx):
                   '`%s`: chain recursion=%s, length recursion=%s — height and block_hash of one get_blockchain_info answer may describe different blocks' % (k, sa_[k], sb[k]))
     # the chain carried along is the chosen child's, with the root appended
     e = ex(prog, a)
-    bc = [x for l in local_by_name(a, 'best_chain') for x in table(prog, a, l)]
-    chosen = [x for x in bc if P.either(P.field('2', P.call(a.short, P.anything)), P.named('child_chain'))(x[1])]
+    from sa.util import find_locals
+    child_chain = P.field('2', P.call(a.short, P.anything))
+    bcs = find_locals(prog, a, lambda x, l: child_chain(x), lambda x, l: not child_chain(x))
+    zero_key = lambda x: x[0] == 'agg' and len(x[4]) == 2 and P.call('ic_btc_canister::blocktree::DifficultyBasedDepth::new', P.const(0))(x[4][0][1]) and const_val(x[4][1][1]) == 0
+    bks = find_locals(prog, a, lambda x, l: zero_key(x))
     same_cond = False
-    bk = [x for l in local_by_name(a, 'best_key') for x in table(prog, a, l) if x[1][0] != 'agg' or not P.call('ic_btc_canister::blocktree::DifficultyBasedDepth::new', P.const(0))(dict(x[1][4]).get('0'))]
-    if len(chosen) == 1 and len(bk) == 1:
-        same_cond = chosen[0][2] == bk[0][2]
+    if len(bcs) == 1 and len(bks) == 1:
+        chosen = [x for x in table(prog, a, bcs[0]) if child_chain(x[1])]
+        bk = [x for x in table(prog, a, bks[0]) if not zero_key(x[1])]
+        same_cond = len(chosen) == 1 and len(bk) == 1 and chosen[0][2] == bk[0][2]
     ctx.check(same_cond, 'R3', 'chain-follows-key', a, 'best_chain is replaced exactly when best_key is (same condition)', 'best_chain and best_key are updated under different conditions')
     push = [c for c in a.calls() if not c.cleanup and c.matches('alloc::vec::Vec::push')]
     ctx.check(any(P.field('root', P.param('self'))(e.operand(c.args[1])) for c in push), 'R3', 'root-appended', a, 'the node\'s own block is appended to the chosen child chain', 'root is not appended to the chain')
